@@ -2,6 +2,7 @@ import GtirbVerif.Spec.Scopes
 import GtirbVerif.Lemmas.SortOn
 import GtirbVerif.Lemmas.Store
 import GtirbVerif.Lemmas.StoreOrder
+import GtirbVerif.Lemmas.StoreSpec
 
 /-!
 # C07 — each registered insertion lands exactly once, exactly where asked
@@ -194,6 +195,15 @@ theorem resolve_offsets_any_order {env : BlockEnv} {m1 m2 : List Mod} {r : List 
     (hid : ∀ a ∈ m1, ∀ b ∈ m1, a.id = b.id → a = b) (h : resolveOffsets env m1 = .ok r) :
     resolveOffsets env m2 = .ok r :=
   resolve_perm hp hid h
+
+/-- **the model's offsets are the specification's**: when the instruction sizes handed to the model are what
+`_nonterminator_instructions` is defined to keep (every instruction if all out-edges are fallthroughs, all but
+the last otherwise) and capstone decoded the whole block, the offset the model of `scopes.py` resolves a position
+to is the offset `Spec/Scopes.lean` - the oracle - prescribes -/
+theorem store_offset_is_the_specifications (ir : IR) (b : Block) (sizes : List Nat) (env : BlockEnv) (p : Store.Pos)
+    (hp : env.partialDis = false) (hn : env.nonterm = nontermSizes ir b sizes) :
+    firstInBlock env true p = .ok (Scopes.offsetOf ir b sizes (.single b.id (specPos p))) :=
+  firstInBlock_eq_spec ir b sizes env p hp hn
 
 /-! non-vacuity: two insertions and a replacement at one offset, registered replacement first -/
 private def envX : BlockEnv := { id := 7, isCode := true, func := none, nonterm := [1, 2], partialDis := false }
